@@ -22,7 +22,7 @@ from qiskit.circuit import (
     Measure,
 )
 
-from .instructions import BaseQPDGate, TwoQubitQPDGate
+from .instructions import BaseQPDGate, SingleQubitQPDGate, TwoQubitQPDGate
 
 
 def decompose_qpd_instructions(
@@ -118,6 +118,14 @@ def _validate_qpd_instructions(
                 raise ValueError(
                     f"A circuit data index ({gate_id}) corresponds to a non-QPDGate "
                     f"({circuit.data[gate_id].operation.name})."
+                )
+            if len(decomp_ids) == 2 and not isinstance(
+                circuit.data[gate_id].operation, SingleQubitQPDGate
+            ):
+                raise ValueError(
+                    "A decomposition with two elements must consist of two "
+                    f"SingleQubitQPDGates, but index ({gate_id}) corresponds to a "
+                    f"({circuit.data[gate_id].operation.name}) instruction."
                 )
             tmp_basis = circuit.data[gate_id].operation.basis
             if compare_basis != tmp_basis:
